@@ -74,7 +74,11 @@ class Node:
     def __add__(self, other):
         self.neighbors[other] = None
         other.neighbors[self] = None
-        self._update()
+        # On a graph with cycles, a single sweep may rebuild a node from
+        # neighbors that are not up to date yet, and leave it with a longer
+        # route. Sweep again until every table is stable.
+        while self._update():
+            pass
         return other
 
     @property
@@ -82,6 +86,8 @@ class Node:
         return [self.path(node_name)[-1] for node_name in self.routes.keys()] + [self]
 
     def _update(self, already_updated=None):
+
+        previous = {k: (v.direction, v.steps) for k, v in self.routes.items()}
 
         self.routes = {}
         for node in self.neighbors:
@@ -113,10 +119,16 @@ class Node:
 
         already_updated.add(self)
 
+        changed = previous != {
+            k: (v.direction, v.steps) for k, v in self.routes.items()
+        }
+
         # Recursive update (with lock)
         for node in self.neighbors:
             if node not in already_updated:
-                node._update(already_updated)
+                changed |= node._update(already_updated)
+
+        return changed
 
     def path(self, goal):
         """Get the shortest way between two nodes of the graph
